@@ -63,6 +63,69 @@ def legacy_all_preimage(version, inputs, outputs, locktime, i, script_code, ser=
     return r + wire.le(locktime, 4) + wire.le(SIGHASH_ALL, 4)
 
 
+def in_step_legacy(i, ser, code):
+    """one input of the legacy SIGHASH_ALL preimage: outpoint, script code (only at input i) or empty script, sequence"""
+    def step(acc, x, j):
+        return acc + x.prev_txid[::-1] + x.output_n[::-1] + (ser(code(x)) if j == i else b'\x00') + wire.le(x.sequence, 4)
+    return step
+
+
+def out_step(ser):
+    def step(acc, o, j):
+        return acc + wire.le(o.value, 8) + ser(o.lock_script)
+    return step
+
+
+def prevouts_step(acc, y, j):
+    return acc + y.prev_txid[::-1] + y.output_n[::-1]
+
+
+def sequences_step(acc, y, j):
+    return acc + wire.le(y.sequence, 4)
+
+
+def code_locking(x):
+    return x.locking_script
+
+
+def code_redeem(x):
+    return x.redeemscript
+
+
+def legacy_all_preimage_rec(version, inputs, outputs, locktime, i, ser=wire.ser_string, code=code_locking):
+    """legacy_all_preimage for lists of ANY length, on records (fields prev_txid in RPC order, output_n big-endian, sequence; value,
+    lock_script): the same definition with the two loops written as left folds.  `code(x)` is the script code of input x (its
+    locking script; the redeem script for P2SH)."""
+    from pyvc.api import fold
+    return (wire.le(version, 4) + wire.compact_size(len(inputs)) + fold(in_step_legacy(i, ser, code), b'', inputs, len(inputs), key='legacy-in')
+            + wire.compact_size(len(outputs)) + fold(out_step(ser), b'', outputs, len(outputs), key='tx-out')
+            + wire.le(locktime, 4) + wire.le(SIGHASH_ALL, 4))
+
+
+def bip143_preimage_rec(version, inputs, outputs, locktime, i, hash_type, ser=wire.ser_string):
+    """bip143_preimage for lists of ANY length, on records: hashPrevouts / hashSequence / hashOutputs are hashes of left folds.
+    The script code of input i is its redeemscript field, the amount its value field."""
+    from pyvc.api import fold
+    base = hash_type & 0x1f
+    acp = (hash_type & SIGHASH_ANYONECANPAY) != 0
+    zero = b'\x00' * 32
+    x = inputs[i]
+    hash_prevouts = zero if acp else dsha(fold(prevouts_step, b'', inputs, len(inputs), key='bip143-prevouts'))
+    if acp or base == SIGHASH_SINGLE or base == SIGHASH_NONE:
+        hash_sequence = zero
+    else:
+        hash_sequence = dsha(fold(sequences_step, b'', inputs, len(inputs), key='bip143-sequences'))
+    if base != SIGHASH_SINGLE and base != SIGHASH_NONE:
+        hash_outputs = dsha(fold(out_step(ser), b'', outputs, len(outputs), key='tx-out'))
+    elif base == SIGHASH_SINGLE and i < len(outputs):
+        o = outputs[i]
+        hash_outputs = dsha(wire.le(o.value, 8) + ser(o.lock_script))
+    else:
+        hash_outputs = zero
+    return (wire.le(version, 4) + hash_prevouts + hash_sequence + x.prev_txid[::-1] + x.output_n[::-1] + ser(x.redeemscript)
+            + wire.le(x.value, 8) + wire.le(x.sequence, 4) + hash_outputs + wire.le(locktime, 4) + wire.le(hash_type, 4))
+
+
 def varstr_as_observed(s):
     """pin F-varstr-00: the library serialises the one-byte string 00 as 00 (no length prefix)"""
     return s if s == b'\x00' else wire.ser_string(s)
